@@ -179,6 +179,38 @@ PROPS = {
                       "catch_unwind with the error variant compared to the model.",
         "level_note": V0_NOTE,
     },
+    "C09": {
+        "families": [{"name": "dedup"}, {"name": "decl"}, {"name": "ty"}],
+        "tags": {"dedup": "direct", "rt": "direct", "bytes": "direct", "dec-model": "indirect", "invent": "indirect",
+                 "err-kind": "indirect", "reject-more": "indirect", "consume": "indirect"},
+        "rule": "every sequence of length <= 5 of (dedup | plain) writes over a 4-string alphabet (9331 sequences): exact bytes expected from the "
+                "statement (first occurrence plain, repeats zz(-id), ids from 1 in first-occurrence order), read back; the same sequences as "
+                "Vec<Result<DStr,String>> through the model; back-references to ids 1..5 after 0..3 strings; evolved records with removed / "
+                "transient names in the header equal and unequal to field values (decl: DedupR, DedupR2, DedupMix, DedupNest). "
+                "distinct = sequences with at least one repeat",
+        "trusted": MODEL_TRUST,
+        "partial": "placements inside records with evolution headers: correspondence only",
+        "level_text": "Proof (partial): first occurrence = plain string + registration, repeat = zz(-id) of at most five bytes, ids in "
+                      "first-occurrence order, unknown id = InvalidStringId, a no-repeat stream is byte-identical to the plain stream, and the "
+                      "round trip in any placement over headerless records with writer and reader tables equal at corresponding points "
+                      "(the invariant carried by rt_all).",
+        "level_note": V0_NOTE,
+    },
+    "C15": {
+        "families": [{"name": "sink"}, {"name": "srcops"}, {"name": "varint"}],
+        "tags": {"sink-bytes": "direct", "sink-size": "direct", "src-agree": "direct", "src-panic": "direct", "src-model": "indirect",
+                 "varint-sinks": "direct", "varint-sources": "direct"},
+        "rule": "sink: every catalogue type and generated declaration x 25 values through Vec<u8>, BytesMut, serialize_to_bytes, "
+                "serialize_to_byte_vec, a recording user output, an explicit context and SizeCalculator, sequentially in one thread "
+                "(failing and succeeding values interleaved); srcops: 4000 random sequences of u8 / bytes / skip / var-int reads with lengths "
+                "up to usize::MAX over random buffers through SliceInput, OwnedInput, DeserializationContext and the model",
+        "trusted": MODEL_TRUST,
+        "level_text": "Proof: for every writer program over write_u8 / write_bytes / push_buffer / pop_buffer the vector sink, the recording sink "
+                      "and the size calculator agree (induction on the program); the flat inputs and the context agree operation by operation "
+                      "including where they report the end of input; var-ints read the same through the context and the reference source.",
+        "level_note": "The encoder is not itself expressed as a WProg; that the real serializer only uses those four operations of its context is by "
+                      "reading (SerializationContext exposes nothing else). Trusted: Lean kernel, model, harness.",
+    },
     "C11": {
         "families": [{"name": "varint"}],
         "tags": {
